@@ -51,6 +51,11 @@ def namespace():
 
 def struct(node):
     """Structural form of an AST that ignores absent-vs-empty optional fields and position attributes."""
+    if isinstance(node, ast.UnaryOp) and isinstance(node.op, (ast.USub, ast.UAdd)) and isinstance(node.operand, ast.Constant) \
+            and type(node.operand.value) in (int, float, complex):
+        # the parser never produces negative constants: -3 is UnaryOp(USub, 3); fold so both spellings compare equal
+        v = node.operand.value
+        return ("Constant", ("value", ("v", type(v).__name__, repr(-v if isinstance(node.op, ast.USub) else v))))
     if isinstance(node, ast.AST):
         out = [type(node).__name__]
         for f in node._fields:
@@ -123,7 +128,12 @@ class C06(core.Check):
         return out
 
     def space(self):
-        return rt.OptSpace(al.ir_space(self.tier), self.option_list())
+        if self.tier == "thorough":
+            return rt.OptSpace(al.ir_space(self.tier), self.option_list())
+        full = self.option_list()
+        qa = [o for o in full if o["kind"] != "function" or (o["ft"], o["inline"], o["kwonly"]) in (
+            ("static", True, True), ("static", False, False), ("self", True, False), ("cls", False, True))]
+        return core.Concat(rt.OptSpace(al.S_A(), qa), rt.OptSpace(al.S_B((2,)), full))
 
     # -------------------------------------------------------------------------------- run
     def run_case(self, case):
@@ -164,7 +174,7 @@ class C06(core.Check):
         again = ast.parse(ast.unparse(tree))
         sites.append(site(struct(again) == struct(tree), dict(cf, field="tree.second_unparse"), fail="tree_differs"))
         # --- (c) file emission (only for one option set per kind: file emission does not depend on the others)
-        if self.file_case(opts):
+        if self.file_case(opts, case):
             sites += self.file_sites(emit, node, tree, cf)
         # --- (d) behaviour
         _, _, ir0 = al.case_ir(case)
@@ -189,11 +199,14 @@ class C06(core.Check):
                               msg=core.short(str(e), 80)))
         return sites, nontrivial, [text, [s["ok"] for s in sites]]
 
-    @staticmethod
-    def file_case(opts):
-        if opts["kind"] == "function":
-            return opts["ft"] == "static" and opts["indent"] == 2
-        return True
+    def file_case(self, opts, case):
+        """File emission does not depend on the function options or the summary; run it once per IR and kind
+        (quick: only for the first summary form)."""
+        if opts["kind"] == "function" and not (opts["ft"] == "static" and opts["indent"] == 2 and opts["inline"] and opts["kwonly"]):
+            return False
+        if opts["kind"] != "function" and not (opts["edd"] is False and opts["ww"] is True):
+            return False
+        return self.tier == "thorough" or case["summary"] == 0
 
     def file_sites(self, emit, node, tree, cf):
         out = []
@@ -357,6 +370,8 @@ class C06(core.Check):
                 # type callable
                 wt = scalar if scalar is not None else str
                 ok = (a.type is wt) or (wt is str and a.type is None)
+                if typ is None and default != rm.ABSENT and default[0] in ("int", "float", "bool"):
+                    ok = ok or getattr(a.type, "__name__", None) == default[0]  # type inferred from the default
                 sites.append(site(ok, dict(f, field="ap.type"), fail="type", got=getattr(a.type, "__name__", repr(a.type))))
                 gc = tuple(a.choices) if a.choices is not None else None
                 sites.append(site(gc == choices, dict(f, field="ap.choices"), fail="choices", got=repr(gc)))
